@@ -121,8 +121,6 @@ def shared_probe():
     serve_all()
     c = slots()
     res = []
-    for x, y, z in zip(b, c, c):
-        pass
     first = {(o, s): (i, v) for o, s, i, v in a}
     for (o, s, i, v), (_, _, i2, v2) in zip(b, c):
         if (i, v) == (i2, v2) and first.get((o, s)) == (i, v):
